@@ -74,7 +74,7 @@ impl PieceSolver {
     fn solve_internal(&mut self, piece: &OrchestrationPiece) -> std::io::Result<bool> {
         let mut is_rejected = false;
         for file in piece.files.iter() {
-            if file.metadata.is_padding_file { continue; }
+            if file.metadata.is_padding_file || file.read_length == 0 { continue; }
             if file.metadata.searches.is_none() {
                 is_rejected = true;
                 break;
